@@ -64,9 +64,9 @@ MC = {
                                       INVS='TypeOK C13_NoAlias NoFatal'))],
             'thorough': [('MC_Seq', dict(KEYS='{"b", "c"}', HASHIDS='{"hb"}', Collide='TRUE', MaxOps=4, MaxRestarts=0, Vals='{1, 2}', Revs='{0}',
                                          INVS='TypeOK C13_ReadMap C13_NoAlias NoFatal')),
-                         ('MC_Seq', dict(KEYS='{"a", "b", "c"}', HASHIDS='{"ha", "hb"}', Collide='TRUE', MaxOps=4, MaxRestarts=1, Vals='{1}', Revs='{0}',
-                                         WithGC='TRUE', FileMax=2, INVS='TypeOK C13_NoAlias NoFatal'))]},
-    'C17': {'quick': [('MC_Seq', dict(MaxOps=4, WithGC='TRUE', FileMax=2, Vals='{1}', Revs='{0}', MaxChunk=3))],
+                         ('MC_Seq', dict(KEYS='{"a", "b", "c"}', HASHIDS='{"ha", "hb"}', Collide='TRUE', MaxOps=5, MaxRestarts=1, Vals='{1}', Revs='{0}',
+                                         WithGC='TRUE', FileMax=2, INVS='TypeOK C13_NoAlias NoFatal'))]},   # (a pass needs >= 5 ops)
+    'C17': {'quick': [('MC_Seq', dict(MaxOps=5, WithGC='TRUE', FileMax=2, Vals='{1}', Revs='{0}', MaxChunk=3))],   # (a pass needs >= 5 ops: 3 writes, flush, gc)
             'thorough': [('MC_Seq', dict(MaxOps=6, WithGC='TRUE', FileMax=2, Vals='{1}', Revs='{0}', MaxChunk=4))]},
     'C02': {'quick': [('MC_Seq', dict(MaxOps=3, CheckVH='FALSE', MaxRestarts=1))],
             'thorough': [('MC_Seq', dict(MaxOps=4, CheckVH='FALSE', MaxRestarts=2)),
@@ -177,6 +177,13 @@ def run(pid, tier, seed, work, log, replay=None):
                 rng = random.Random(seed * 7919 + 1)
                 tpl = rng.sample(tpl, {'C03': 320, 'C18': 200, 'C17': 160}[pid])
             scen += tpl
+            tp2 = G.gc_twopass_templates()
+            if tier == 'quick':
+                tp2 = random.Random(seed * 7919 + 2).sample(tp2, 48)
+            scen += tp2
+        # behaviours of the specification itself (TLC -simulate over Gen_Seq) replayed into the real store
+        import gen_tlc
+        scen += gen_tlc.generate(focus, seed, {'quick': 60, 'thorough': 600}[tier], work, log)
         fixed = os.path.join(V.VERIF, 'scenarios', 'fixed', pid)
         if os.path.isdir(fixed):
             for f in sorted(os.listdir(fixed)):
